@@ -14,7 +14,9 @@ MANIFEST = {
             "N>=1, every complex input, wavelength != 0, spacings != 0 (any magnification), distance/focal length != 0 of either sign "
             "(2-D Parseval from the C09 Plancherel identity, |e^{i theta}|=1, spacing algebra d2 = lambda z/(N d1), Dz2 = -m Dz1). The model is "
             "tied to the code by running the same Lean definitions at binary64 against the real functions (even N<=16, both signs of z, "
-            "m in {1/2,3/4,1,3/2,2}); a direct oracle evaluates power ratio and superposition on the real code up to N=128.",
+            "m in {1/2,3/4,1,3/2,2} and 1±2^-k; scalars typed as float/numpy.float64/float32/0-d array/int, fields complex128/real/complex64/"
+            "Fortran/strided); a direct oracle evaluates power ratio, superposition and complex homogeneity on the real code up to N=128, "
+            "including unit magnification under every scalar typing and tiny non-zero distances.",
     "note": "Trusted: Lean kernel + propext/Classical.choice/Quot.sound; numpy.fft = naive DFT (contract checked in C09 and here to 1e-9); "
             "binary64 rounding is not modelled (model is exact arithmetic; comparison tolerance 1e-9 of the output max-norm); NumPy "
             "meshgrid/broadcast semantics exercised by the correspondence only.",
@@ -25,6 +27,21 @@ REQUIRED = ["angularSpectrum_linear", "oneStepFresnel_linear", "twoStepFresnel_l
             "twoStepFresnel_pinned_linear", "twoStepFresnel_pinned_power"]
 TOL = 1e-9
 MAGS = [0.5, 0.75, 1.0, 1.5, 2.0]
+
+
+# --------------------------------------------------------------------------- observed maxima per tolerance class (goes into the evidence notes)
+def obs(chk, cat, value):
+    d = chk.__dict__.setdefault("_obs", {})
+    value = float(value)
+    if not value <= d.get(cat, -1.0):                     # NaN is recorded too
+        d[cat] = value
+    return value
+
+
+def obs_note(chk):
+    d = chk.__dict__.get("_obs", {})
+    if d:
+        chk.notes.append("largest observed error per tolerance class this run: " + "; ".join("%s %.2g" % (k, d[k]) for k in sorted(d)))
 
 
 # --------------------------------------------------------------------------- generators
@@ -55,6 +72,77 @@ def geometry(rng, n):
     return float(wvl), float(d1), float(z)
 
 
+# ---- how a caller may hand over the same number / the same field (the property quantifies over values, not over Python types)
+SCALAR_KINDS = ["float", "f64", "f32", "0d", "int"]
+
+
+def as_kind(v, kind):
+    """the number v presented as Python float / numpy.float64 / numpy.float32 / 0-d float64 array / Python int (when integral):
+    returns (object handed to the library, kind actually used, the binary64 value that object denotes)"""
+    v = float(v)
+    if kind == "f64":
+        o = numpy.float64(v)
+    elif kind == "f32":
+        o = numpy.float32(v)                              # rounds: the value the library is given is float(o)
+    elif kind == "0d":
+        o = numpy.array(v, dtype=float)
+    elif kind == "int" and v.is_integer() and abs(v) < 2 ** 31:
+        o = int(v)
+    else:
+        o, kind = v, "float"
+    return o, kind, float(o)
+
+
+class Scalars(object):
+    """one geometry (wvl, d1, d2, z): .obj = what is passed to the library, .val = the binary64 values these denote (used by every
+    reference computation and by the Lean model), .kinds, .lowp = some parameter is single precision (tolerance by dtype)"""
+
+    def __init__(self, rng, it, wvl, d1, m, z, kinds=None):
+        if kinds is None:
+            if it % 2 == 0:                               # deterministic rotation: every kind reaches every parameter in 5 cases
+                kinds = [SCALAR_KINDS[(it // 2 + off) % 5] for off in (0, 1, 3, 2)]
+            else:
+                kinds = [rng.choice(SCALAR_KINDS) for _ in range(4)]
+        if "f32" in kinds[1:3]:                           # keep d2/d1 == m exactly representable (m == 1 must stay d1 == d2)
+            d1 = float(numpy.float32(d1))
+        o_w, k_w, v_w = as_kind(wvl, kinds[0])
+        o_1, k_1, v_1 = as_kind(d1, kinds[1])
+        o_2, k_2, v_2 = as_kind(m * v_1, kinds[2])
+        o_z, k_z, v_z = as_kind(z, kinds[3])
+        self.obj = (o_w, o_1, o_2, o_z)
+        self.val = (v_w, v_1, v_2, v_z)
+        self.kinds = (k_w, k_1, k_2, k_z)
+        self.lowp = "f32" in self.kinds
+        self.m = m
+
+    def label(self):
+        return "/".join(self.kinds)
+
+
+FIELD_CLASSES = ["c128", "c128", "real", "c64", "fortran", "strided", "negstride"]
+
+
+def present_field(U, cls):
+    """the field U presented as another input class: returns (array handed to the library, complex128 C-ordered array of the values
+    it holds, single-precision flag).  real / c64 change the VALUES (real part / rounded), the layouts do not."""
+    if cls == "real":
+        V = numpy.ascontiguousarray(U.real)
+        return V, V.astype(complex), False
+    if cls == "c64":
+        V = U.astype(numpy.complex64)
+        return V, V.astype(complex), True
+    if cls == "fortran":
+        return numpy.asfortranarray(U), U.copy(), False
+    if cls == "strided":                                  # every second sample of a larger buffer
+        n = U.shape[0]
+        big = numpy.full((2 * n, 2 * n + 1), 7.0 + 3.0j)
+        big[::2, 1::2] = U
+        return big[::2, 1::2], U.copy(), False
+    if cls == "negstride":                                # a reversed view of a reversed copy
+        return U[::-1, ::-1].copy()[::-1, ::-1], U.copy(), False
+    return U.copy(), U.copy(), False
+
+
 # --------------------------------------------------------------------------- correspondence (shared with C11)
 def line(op, n, p, arr):
     p = list(p) + [0.0] * (4 - len(p))
@@ -67,55 +155,86 @@ def parse_c(ans, shape):
     return numpy.array([common.h2f(h) for h in ans.split()]).view(complex).reshape(shape)
 
 
-def correspondence(chk, quick, ncase, accept_pinned_two=False):
+def near_unit(rng):
+    """a magnification next to 1: 1 ± 2^-k, k = 2..8 (exactly representable, also in single precision)"""
+    return 1.0 + rng.choice([-1, 1]) * 2.0 ** (-rng.randint(2, 8))
+
+
+LOWP_TOL = 5e-2      # some scalar is numpy.float32: the library then evaluates k, mag, d2, 1/(i lambda z) in single precision and phases of up to
+#                      ~1e3 rad lose 3-4 digits (observed <= 3.5e-3 of the output max-norm over 400 geometries); structure errors (NaN, wrong
+#                      branch, wrong grid) are O(1)
+C64_TOL = 1e-5       # complex64 field: numpy.fft transforms single-precision input in single precision (observed <= 4e-7)
+
+
+def correspondence(chk, quick, ncase, accept_pinned_two=False, odd=False):
     """the Lean model at binary64 vs aotools.opticalpropagation on the same inputs.
-    accept_pinned_two (C10 only): twoStepFresnel may match either the repaired model or the model of the pinned code (no final
-    point reflection) — the C10 theorems are proved for both; C11 accepts the repaired one only."""
+    accept_pinned_two (C10 only): twoStepFresnel may match either the repaired model or the model without the final point reflection
+    — the C10 theorems are proved for both; C11 accepts the repaired one only.
+    odd (C11): odd grid sizes too (C10's property is stated for even grids only).
+    Every scalar parameter is handed to the library as Python float / numpy.float64 / numpy.float32 / 0-d array / int (Scalars), the
+    field as complex128 / real / complex64 / Fortran-ordered / strided views (present_field); the model is given the binary64 values."""
     from aotools import opticalpropagation as op
     nprng = numpy.random.default_rng(chk.rng.getrandbits(32))
     sizes = [2, 4, 6, 8, 10, 12] if quick else [2, 4, 6, 8, 10, 12, 14, 16]
-    lines, expect, desc = [], [], []
+    if odd:
+        sizes = sizes + ([3, 5, 7, 9] if quick else [3, 5, 7, 9, 11, 13, 15])
+    lines, expect, desc, tols = [], [], [], []
 
-    def add(opname, n, p, U, impl):
+    def add(opname, n, p, U, impl, tol):
         lines.append(line(opname, n, p, U))
         expect.append(impl)
         desc.append((opname, n) + tuple(p))
+        tols.append(tol)
         if opname == "two" and accept_pinned_two:
             lines.append(line("twop", n, p, U))
             expect.append(impl)
             desc.append(("twop", n) + tuple(p))
+            tols.append(tol)
 
     for it in range(ncase):
         n = sizes[it % len(sizes)] if it < 2 * len(sizes) else chk.rng.choice(sizes)
         kind = chk.rng.choice(["gauss", "dyadic", "delta", "blob"])
-        U = rand_field(nprng, n, kind)
+        cls = FIELD_CLASSES[it % len(FIELD_CLASSES)]
+        Uin, U, c64 = present_field(rand_field(nprng, n, kind), cls)
         wvl, d1, z = geometry(chk.rng, n)
-        m = MAGS[it % len(MAGS)]
-        d2 = m * d1
+        m = near_unit(chk.rng) if it % 6 == 5 else MAGS[it % len(MAGS)]
+        sc = Scalars(chk.rng, it, wvl, d1, m, z)
+        (o_w, o_1, o_2, o_z), (wvl, d1, d2, z) = sc.obj, sc.val
+        tol = LOWP_TOL if sc.lowp else C64_TOL if c64 else TOL
         chk.count("corr:N=%d" % n)
         chk.count("corr:z%s" % ("+" if z > 0 else "-"))
-        chk.count("corr:m=%g" % m)
+        chk.count("corr:m=%s" % ("%g" % m if m in MAGS else "1±2^-k"))
         chk.count("corr:data=%s" % kind)
-        add("as", n, (wvl, d1, d2, z), U, op.angularSpectrum(U.copy(), wvl, d1, d2, z))
-        add("one", n, (wvl, d1, z), U, op.oneStepFresnel(U.copy(), wvl, d1, z))
-        add("two", n, (wvl, d1, d2, z), U, op.twoStepFresnel(U.copy(), wvl, d1, d2, z))
-        add("lens", n, (wvl, d1, z), U, op.lensAgainst(U.copy(), wvl, d1, z))
+        chk.count("corr:field=%s" % cls)
+        for kk in sc.kinds:
+            chk.count("corr:scalar=%s" % kk)
+        with numpy.errstate(all="ignore"):               # a division by zero inside the library must show up as a wrong field, not as a warning
+            add("as", n, (wvl, d1, d2, z), U, op.angularSpectrum(Uin, o_w, o_1, o_2, o_z), tol)
+            add("one", n, (wvl, d1, z), U, op.oneStepFresnel(Uin, o_w, o_1, o_z), tol)
+            add("two", n, (wvl, d1, d2, z), U, op.twoStepFresnel(Uin, o_w, o_1, o_2, o_z), tol)
+            add("lens", n, (wvl, d1, z), U, op.lensAgainst(Uin, o_w, o_1, o_z), tol)
         if it % 7 == 0:
-            add("as", n, (wvl, d1, d2, 0.0), U, op.angularSpectrum(U.copy(), wvl, d1, d2, 0.0))
+            z0 = as_kind(0.0, SCALAR_KINDS[(it // 7) % 5])[0]
+            add("as", n, (wvl, d1, d2, 0.0), U, numpy.asarray(op.angularSpectrum(Uin, o_w, o_1, o_2, z0)), TOL)
             chk.count("corr:z0")
-            add("refl", n, (), U, numpy.roll(U[::-1, ::-1], 1, axis=(0, 1)))
+            add("refl", n, (), U, numpy.roll(U[::-1, ::-1], 1 - n % 2, axis=(0, 1)), TOL)
     ans = common.run_driver(lines, "C10")
     nbad = 0
     verdicts = []
-    for a, e, ds in zip(ans, expect, desc):
+    for a, e, ds, tol in zip(ans, expect, desc, tols):
         if a == "bad-op":
             chk.broke("correspondence", "driver rejected %s N=%d" % (ds[0], ds[1]))
             verdicts.append((True, 0.0, 1.0))
             continue
+        if e.shape != (ds[1], ds[1]):
+            verdicts.append((False, float("nan"), 1.0))
+            continue
         mdl = parse_c(a, e.shape)
-        scale = float(numpy.abs(e).max()) + 1e-300
+        scale = float(numpy.abs(mdl).max()) + 1e-300      # the model's scale: a NaN / inf output of the library must not poison the bound
         err = float(numpy.abs(mdl - e).max())
-        verdicts.append((err <= TOL * scale, err, scale))
+        if ds[0] != "twop":
+            obs(chk, "corr[tol %g]" % tol, err / scale)
+        verdicts.append((err <= tol * scale, err, scale))
     pinned_hits = repaired_hits = 0
     for i, ((ok, err, scale), ds) in enumerate(zip(verdicts, desc)):
         if ds[0] == "twop":
@@ -163,62 +282,119 @@ def propagators(op):
     }
 
 
+LOWP_POWER_TOL = 1e-5   # a numpy.float32 scalar or a complex64 field: 1/(i lambda z), d2 resp. the FFT are evaluated in single precision
+#                         (observed <= 4.5e-7 over 400 geometries)
+TINY_Z = [5e-9, -5e-9, 1e-10, -3e-12]
+
+
 def oracle(chk, quick):
     from aotools import opticalpropagation as op
     nprng = numpy.random.default_rng(chk.rng.getrandbits(32))
     sizes = [2, 4, 6, 8, 10, 16, 32, 64] + ([] if quick else [12, 24, 48, 96, 128])
     reps = 3 if quick else 12
     props = propagators(op)
+    it = chk.rng.randint(0, 9)
+
+    def one_geometry(n, wvl, d1, m, z, kind, cls, kinds=None, tag="oracle", sample=False):
+        sc = Scalars(chk.rng, it, wvl, d1, m, z, kinds)
+        obj, (wvl, d1, d2, z) = sc.obj, sc.val
+        Uin, U, c64 = present_field(rand_field(nprng, n, kind), cls)
+        V = rand_field(nprng, n, "gauss")
+        a, b = complex(chk.rng.uniform(-2, 2), chk.rng.uniform(-2, 2)), complex(chk.rng.uniform(-2, 2), chk.rng.uniform(-2, 2))
+        pin = float((numpy.abs(U) ** 2).sum() * d1 * d1)
+        ptol = LOWP_POWER_TOL if (sc.lowp or c64) else TOL
+        ltol = LOWP_POWER_TOL if c64 else TOL             # a*U of a complex64 field is rounded to single precision by NumPy
+        chk.count("%s:N=%d" % (tag, n))
+        chk.count("%s:z%s" % (tag, "+" if z > 0 else "-"))
+        chk.count("%s:data=%s" % (tag, kind))
+        chk.count("%s:field=%s" % (tag, cls))
+        chk.count("%s:m%s1" % (tag, "=" if d2 == d1 else "<" if d2 < d1 else ">"))
+        for kk in sc.kinds:
+            chk.count("%s:scalar=%s" % (tag, kk))
+        for name, (call0, dout) in props.items():
+            def call(F, call0=call0):
+                with numpy.errstate(all="ignore"):       # an internal division by zero must show up in the result
+                    return call0(F, *obj)
+            chk.oracle_cases += 1
+            chk.case((tag, name, n, wvl, d1, d2, z, kind, cls, sc.label()),
+                     sample={"propagator": name, "N": n, "wvl": wvl, "d1": d1, "d2": d2, "z": z, "data": kind, "field": cls,
+                             "scalar kinds (wvl,d1,d2,z)": sc.label()} if sample else None)
+            rp = dict(propagator=name, N=n, wvl=wvl, d1=d1, d2=d2, z=z, data=kind, field=cls, scalar_kinds=sc.label(), seed=chk.seed)
+            U0 = Uin.copy()
+            out = call(Uin)
+            if out.shape != U.shape:
+                chk.fail("shape:" + name, "%s returns shape %s for input %s" % (name, out.shape, U.shape), rp)
+                continue
+            if not numpy.isfinite(out).all():
+                key = ("scalar-kind:twoStepFresnel:unit-magnification-nan" if name == "twoStepFresnel" and d1 == d2 else "nonfinite:" + name)
+                chk.fail(key, "%s returns a field with NaN/inf samples (%d of %d) for a finite field and wvl=%r d1=%r d2=%r z=%r (N=%d)"
+                         % (name, int((~numpy.isfinite(out)).sum()), out.size, obj[0], obj[1], obj[2], obj[3], n), dict(rp, U=_small(U)))
+                continue
+            # conservation of power
+            do = dout(n, wvl, d1, d2, z)
+            pout = float((numpy.abs(out) ** 2).sum() * do * do)
+            obs(chk, "power[tol %g]" % ptol, abs(pout - pin) / pin)
+            if not abs(pout - pin) <= ptol * pin:
+                chk.fail("power:" + name, "%s: Σ|U_out|²d_out² / Σ|U_in|²d_in² = %.12g (N=%d wvl=%g d1=%g d2=%g z=%g, %s %s field, scalars %s)"
+                         % (name, pout / pin, n, wvl, d1, d2, z, kind, cls, sc.label()), dict(rp, ratio=pout / pin, U=_small(U)))
+            # superposition with complex coefficients
+            oV = call(V)
+            lin = call(a * Uin + b * V)
+            scl = float(max(numpy.abs(out).max(), numpy.abs(oV).max())) * 4 + 1e-300
+            err = float(numpy.abs(lin - (a * out + b * oV)).max())
+            obs(chk, "superposition[tol %g]" % ltol, err / scl)
+            if not err <= ltol * scl:
+                chk.fail("linear:" + name, "%s(aU+bV) ≠ a·%s(U)+b·%s(V): err %.3g of scale %.3g (N=%d wvl=%g d1=%g d2=%g z=%g a=%r b=%r)"
+                         % (name, name, name, err, scl, n, wvl, d1, d2, z, a, b), dict(rp, a=[a.real, a.imag], b=[b.real, b.imag], U=_small(U), V=_small(V)))
+            # homogeneity alone, non-real coefficients (an antilinear map — e.g. back-propagation computed as conj(forward) — is additive,
+            # conserves power and commutes with REAL factors; an additive offset survives superposition with a+b=1): i and a general complex c
+            h = call(1j * Uin)
+            obs(chk, "i-homogeneity[tol %g]" % TOL, float(numpy.abs(h - 1j * out).max()) / scl)
+            if not float(numpy.abs(h - 1j * out).max()) <= TOL * scl:
+                chk.fail("linear:" + name, "%s(i·U) ≠ i·%s(U): err %.3g of scale %.3g; against conj-linear -i·%s(U): %.3g (N=%d wvl=%g d1=%g d2=%g z=%g)"
+                         % (name, name, float(numpy.abs(h - 1j * out).max()), scl, name, float(numpy.abs(h + 1j * out).max()), n, wvl, d1, d2, z),
+                         dict(rp, U=_small(U)))
+            hc = call(a * Uin)
+            obs(chk, "c-homogeneity[tol %g]" % (2 * ltol), float(numpy.abs(hc - a * out).max()) / scl)
+            if not float(numpy.abs(hc - a * out).max()) <= ltol * scl * 2:
+                chk.fail("linear:" + name, "%s(c·U) ≠ c·%s(U) for c=%r: err %.3g of scale %.3g (N=%d wvl=%g d1=%g d2=%g z=%g)"
+                         % (name, name, a, float(numpy.abs(hc - a * out).max()), scl, n, wvl, d1, d2, z), dict(rp, c=[a.real, a.imag], U=_small(U)))
+            # a function of its arguments only: same call, same answer; the input is left alone
+            again = call(Uin)
+            if not numpy.array_equal(again, out):
+                chk.fail("stateful:" + name, "%s returns a different field when called twice with the same arguments (N=%d)" % (name, n), rp)
+            if not numpy.array_equal(Uin, U0):
+                chk.fail("inplace:" + name, "%s modifies its input field (N=%d)" % (name, n), rp)
+
     for n in sizes:
         for rep in range(reps):
+            it += 1
             wvl, d1, z = geometry(chk.rng, n)
             if rep % 3 == 2:                              # free-form positive reals, not from the menu
                 wvl *= chk.rng.uniform(0.5, 2.0)
                 d1 *= chk.rng.uniform(0.5, 2.0)
                 z *= chk.rng.uniform(0.5, 2.0)
-            m = chk.rng.choice(MAGS + [chk.rng.uniform(0.3, 3.0)])
-            d2 = m * d1
+            # unit magnification (d1 == d2 exactly, however the two numbers are typed) in a fixed third of the cases
+            m = 1.0 if rep % 3 == 1 else chk.rng.choice(MAGS + [chk.rng.uniform(0.3, 3.0), near_unit(chk.rng)])
             kind = chk.rng.choice(["gauss", "dyadic", "delta", "blob"])
-            U, V = rand_field(nprng, n, kind), rand_field(nprng, n, "gauss")
-            a, b = complex(chk.rng.uniform(-2, 2), chk.rng.uniform(-2, 2)), complex(chk.rng.uniform(-2, 2), chk.rng.uniform(-2, 2))
-            pin = float((numpy.abs(U) ** 2).sum() * d1 * d1)
-            chk.count("oracle:N=%d" % n)
-            chk.count("oracle:z%s" % ("+" if z > 0 else "-"))
-            chk.count("oracle:data=%s" % kind)
-            for name, (call, dout) in props.items():
-                chk.oracle_cases += 1
-                chk.case(("oracle", name, n, wvl, d1, d2, z, kind),
-                         sample={"propagator": name, "N": n, "wvl": wvl, "d1": d1, "d2": d2, "z": z, "data": kind} if rep == 0 and n in (8, 64) else None)
-                rp = dict(propagator=name, N=n, wvl=wvl, d1=d1, d2=d2, z=z, data=kind, seed=chk.seed)
-                U0 = U.copy()
-                out = call(U, wvl, d1, d2, z)
-                if out.shape != U.shape:
-                    chk.fail("shape:" + name, "%s returns shape %s for input %s" % (name, out.shape, U.shape), rp)
-                    continue
-                # conservation of power
-                do = dout(n, wvl, d1, d2, z)
-                pout = float((numpy.abs(out) ** 2).sum() * do * do)
-                if not abs(pout - pin) <= TOL * pin:
-                    chk.fail("power:" + name, "%s: Σ|U_out|²d_out² / Σ|U_in|²d_in² = %.12g (N=%d wvl=%g d1=%g d2=%g z=%g, %s field)"
-                             % (name, pout / pin, n, wvl, d1, d2, z, kind), dict(rp, ratio=pout / pin, U=_small(U)))
-                # superposition with complex coefficients
-                oV = call(V, wvl, d1, d2, z)
-                lin = call(a * U + b * V, wvl, d1, d2, z)
-                sc = float(max(numpy.abs(out).max(), numpy.abs(oV).max())) * 4 + 1e-300
-                err = float(numpy.abs(lin - (a * out + b * oV)).max())
-                if not err <= TOL * sc:
-                    chk.fail("linear:" + name, "%s(aU+bV) ≠ a·%s(U)+b·%s(V): err %.3g of scale %.3g (N=%d wvl=%g d1=%g d2=%g z=%g a=%r b=%r)"
-                             % (name, name, name, err, sc, n, wvl, d1, d2, z, a, b), dict(rp, a=[a.real, a.imag], b=[b.real, b.imag], U=_small(U), V=_small(V)))
-                # homogeneity alone (catches an additive offset / a conjugation, which survive real coefficients)
-                h = call(1j * U, wvl, d1, d2, z)
-                if not float(numpy.abs(h - 1j * out).max()) <= TOL * sc:
-                    chk.fail("linear:" + name, "%s(i·U) ≠ i·%s(U) (N=%d wvl=%g d1=%g d2=%g z=%g)" % (name, name, n, wvl, d1, d2, z), dict(rp, U=_small(U)))
-                # a function of its arguments only: same call, same answer; the input is left alone
-                again = call(U, wvl, d1, d2, z)
-                if not numpy.array_equal(again, out):
-                    chk.fail("stateful:" + name, "%s returns a different field when called twice with the same arguments (N=%d)" % (name, n), rp)
-                if not numpy.array_equal(U, U0):
-                    chk.fail("inplace:" + name, "%s modifies its input field (N=%d)" % (name, n), rp)
+            cls = FIELD_CLASSES[it % len(FIELD_CLASSES)]
+            one_geometry(n, wvl, d1, m, z, kind, cls, sample=(rep == 0 and n in (8, 64)))
+    # unit magnification with every NumPy way of typing d1 / z (the intermediate plane z/(1-m) must not be taken)
+    for kinds in (["float", "f64", "float", "float"], ["float", "float", "float", "f64"], ["f64", "f64", "f64", "f64"],
+                  ["float", "0d", "0d", "0d"], ["f32", "f32", "f32", "f32"], ["int", "int", "int", "int"]):
+        it += 1
+        wvl, d1, z = geometry(chk.rng, 8)
+        if kinds[0] == "int":
+            wvl, d1, z = 1.0, 2.0, float(chk.rng.choice([-1, 1]) * chk.rng.randint(2, 40))
+        one_geometry(chk.rng.choice([4, 6, 8]), wvl, d1, 1.0, z, chk.rng.choice(["gauss", "blob"]), "c128", kinds=kinds, tag="unit-mag")
+    # tiny non-zero distances of either sign, with magnification: z != 0 is in the domain however small (a zero-distance shortcut that
+    # also fires for |z| <= 1e-8 returns the input on the input grid: power off by m²)
+    for z in TINY_Z if quick else TINY_Z + [1e-8, -1e-8, 9.9e-9, 2 ** -40, -2 ** -60]:
+        for m in (2.0, 0.5):
+            it += 1
+            n = chk.rng.choice([4, 6, 8, 16])
+            wvl, d1, _ = geometry(chk.rng, n)
+            one_geometry(n, wvl, d1, m, z, chk.rng.choice(["gauss", "dyadic", "blob"]), "c128", tag="tiny-z")
 
 
 def _small(U):
@@ -227,13 +403,19 @@ def _small(U):
 
 def run(chk):
     quick = chk.tier == "quick"
-    chk.rule = ("correspondence: Lean model (Model/Propagation.lean) at binary64 with the naive DFT vs angularSpectrum / oneStepFresnel / "
-                "twoStepFresnel / lensAgainst on even N<=12 (thorough <=16), gaussian/dyadic/single-sample/asymmetric-blob complex fields, both "
-                "signs of z, z=0, m in {1/2,3/4,1,3/2,2}, |model-impl| <= 1e-9*max|impl|; oracle: power ratio |r-1|<=1e-9 and superposition "
-                "(complex a,b; err <= 1e-9*scale), repeatability, on N<=64 (thorough <=128); distinct = distinct (propagator, N, wvl, d1, d2, z, data kind)")
+    chk.rule = ("correspondence: Lean model (Model/Propagation.lean, grids centred on sample N//2) at binary64 with the naive DFT vs angularSpectrum / "
+                "oneStepFresnel / twoStepFresnel / lensAgainst on even N<=12 (thorough <=16), gaussian/dyadic/single-sample/asymmetric-blob fields presented "
+                "as complex128 / real / complex64 / Fortran-ordered / strided / negative-stride arrays, every scalar parameter presented as Python float / "
+                "numpy.float64 / numpy.float32 / 0-d array / int, both signs of z, z=0, m in {1/2,3/4,1,3/2,2} and 1±2^-k (k=2..8), |model-impl| <= "
+                "1e-9*max|model| (5e-2 when a scalar is float32, 1e-5 for a complex64 field); oracle: finite output, power ratio |r-1|<=1e-9 "
+                "(1e-5 single precision), superposition with complex a,b, homogeneity for i and a general complex factor (both signs of z), "
+                "repeatability, input untouched, on N<=64 (thorough <=128) with m=1 forced in one third of the geometries, every NumPy typing of "
+                "d1/z at m=1, and tiny distances |z| in {5e-9, 1e-10, 3e-12} with m in {2, 1/2}; distinct = distinct (propagator, N, wvl, d1, d2, z, "
+                "data kind, field class, scalar kinds)")
     chk.assumptions = ["numpy.fft kernels = naive DFT sums (contract checked numerically each run)",
                        "binary64 rounding is not modelled: the theorems are about exact complex arithmetic",
-                       "odd N is outside the property's domain (the theorems nevertheless hold for every N>=1)"]
+                       "single-precision inputs (numpy.float32 scalars, complex64 fields) are only compared to single-precision accuracy",
+                       "odd N is outside the property's domain (the theorems nevertheless hold for every N>=1; odd grids are exercised by C11)"]
     chk.build_and_audit("AoVerif.Props.C10", "AoVerif.Props.C10", REQUIRED)
     kernel_contract(chk)
     try:
@@ -241,3 +423,4 @@ def run(chk):
     except common.LeanError as ex:
         chk.broke("correspondence", "driver failed", str(ex))
     oracle(chk, quick)
+    obs_note(chk)
